@@ -17,6 +17,7 @@
 #define CXC_ABSFILE_H
 #include <stddef.h>
 #include <stdint.h>
+#include <string.h>
 
 #ifndef FMAX
 #define FMAX 16
@@ -79,23 +80,33 @@ _Bool nondet_bool(void);
 #define VEC_ESZ(v) (sizeof(*(v).p))
 #define VEC_DATA(v) ((v).p)
 #define VEC_MAX_SIZE(v) ((size_t)PTRDIFF_MAX / VEC_ESZ(v))
+/* value-initialise the elements [from, to) that exist in the model */
+static inline void vec_fill0(void *p, size_t esz, size_t from, size_t to)
+{
+  for (size_t k = 0; k < VCAP; ++k)
+    if (k >= from && k < to)
+      for (size_t b = 0; b < esz; ++b) ((char *)p)[k * esz + b] = 0;
+}
 #define VEC_RESIZE(v, nn)                                                          \
   do {                                                                             \
     size_t n_ = (size_t)(nn);                                                      \
     if (n_ > VEC_MAX_SIZE(v)) { g_thrown = 2; return CXC_THROW_RET; }              \
     if (n_ > VCAP && nondet_bool()) { g_thrown = 3; return CXC_THROW_RET; }        \
-    for (size_t k_ = 0; k_ < VCAP; ++k_)                                           \
-      if (k_ >= (v).len && k_ < n_) (v).p[k_] = 0;                                 \
+    vec_fill0((v).p, VEC_ESZ(v), (v).len, n_);                                     \
     (v).len = n_;                                                                  \
   } while (0)
+/* A-cut: a path ends where a safety obligation is VIOLATED (the condition is asserted first and
+ * only then assumed).  The verdict of the unit is unchanged -- a violated obligation is always
+ * reported -- but the undefined continuation of an out-of-bounds access (measured: ~100
+ * secondary pointer / unwinding failures on one defect) is not explored.                   */
+#define CXC_CUT(c) __CPROVER_assume(c)
 /* element access: obligation "index within the logical length" (safety.idx) plus the
  * bound artefact flag when the element is outside the modelled storage             */
 static inline ptrdiff_t vec_idx(ptrdiff_t e, size_t len)
 {
 #if defined(CXC_CBMC) && !defined(CXC_CANARY)
   __CPROVER_assert(e >= 0 && (size_t)e < len, "safety.idx. vector element access within size()");
-  /* the path ends at a violated safety obligation (verdict unchanged: it is reported) */
-  __CPROVER_assume(e >= 0 && (size_t)e < len);
+  CXC_CUT(e >= 0 && (size_t)e < len);
 #endif
   if (e >= VCAP) { g_cap_exceeded = 1; return 0; }
   return e;
@@ -105,7 +116,7 @@ static inline ptrdiff_t vec_idx_addr(ptrdiff_t e, size_t len)
 {
 #if defined(CXC_CBMC) && !defined(CXC_CANARY)
   __CPROVER_assert(e >= 0 && (size_t)e <= len, "safety.idx. address formed within [begin(), end()] of the vector");
-  __CPROVER_assume(e >= 0 && (size_t)e <= len);
+  CXC_CUT(e >= 0 && (size_t)e <= len);
 #endif
   if (e > VCAP) { g_cap_exceeded = 1; return 0; }
   return e;
